@@ -84,7 +84,25 @@ EXPECTED_BRANCHES = [
     for b in ('real_space', 'complex_space', 'astype')] + [
     'history/dtype/' + d for d in ('float16', 'float32', 'float64', 'float128', 'complex64',
                                    'complex128', 'complex256', 'int8', 'int64', 'uint8',
-                                   'bool')]
+                                   'bool')] + [
+    # OPTIONS stream: element/<space kind>/<input kind>/<option>
+    'element/{}/{}/order={}'.format(k, i, o)
+    for k, extra in (('NumpyTensorSpace', ()),
+                     ('DiscretizedSpace', ('tspace-element', 'equal-tspace-element',
+                                           'callable-vectorized', 'callable-with-parameter')))
+    for i in ('own-element', 'own-element-F', 'equal-space-element', 'other-dtype-element',
+              'ndarray-C', 'ndarray-F', 'ndarray-strided', 'ndarray-other-dtype',
+              'ndarray-readonly', 'nested-list', 'wrong-shape', 'extra-axis') + extra
+    for o in (None, 'C', 'F')] + [
+    'element/NumpyTensorSpace/data_ptr/data_ptr,order={}'.format(o) for o in ('C', 'F', None)] + [
+    'element/ProductSpace/{}/cast={}'.format(i, c)
+    for i in ('own-element', 'equal-space-element', 'list-of-own-members', 'tuple-of-own-members',
+              'list-of-equal-space-members', 'tuple-of-equal-space-members',
+              'list-own-and-equal-mixed', 'list-of-arrays', 'nested-lists',
+              'list-member-and-array', 'stacked-2d-array', 'stacked-2d-array-F',
+              'stacked-2d-array-wrong-length', 'list-too-short', 'list-too-long',
+              'list-last-other-dtype-element')
+    for c in (True, False)]
 KNOWN_EXPLAINS_DISAGREEMENT = False
 
 
@@ -2006,6 +2024,342 @@ def run_derived(ctx, spaces, elems):
 
 
 # ---------------------------------------------------------------------------
+# OPTIONS stream: element(inp, **options) for every space kind x input kind x keyword option
+
+def _dy(rng, shape, dt):
+    n = int(np.prod(shape)) if shape else 1
+    v = np.array([rng.randint(0, 12) / 4 for _ in range(n)]).reshape(shape)
+    return v.astype(dt)
+
+
+def _src_array(inp):
+    if isinstance(inp, np.ndarray):
+        return inp
+    if hasattr(inp, 'tensor'):
+        return inp.tensor.data
+    if hasattr(inp, 'data') and isinstance(inp.data, np.ndarray):
+        return inp.data
+    return None
+
+
+def tensor_like_inputs(S, rng, is_discr):
+    """(input kind, input, is member) for a tensor / discretized space S"""
+    import odl
+    sh, dt = tuple(S.shape), S.dtype
+    eq = rebuild(S)
+    yield 'own-element', S.element(_dy(rng, sh, dt)), True
+    yield 'own-element-F', S.element(np.asfortranarray(_dy(rng, sh, dt))), True
+    yield 'equal-space-element', eq.element(_dy(rng, sh, dt)), True
+    other_dt = 'float32' if dt != np.dtype('float32') else 'float64'
+    yield 'other-dtype-element', odl.tensor_space(sh, dtype=other_dt).element(
+        _dy(rng, sh, other_dt)), False
+    if is_discr:
+        yield 'tspace-element', S.tspace.element(_dy(rng, sh, dt)), False
+        yield 'equal-tspace-element', rebuild(S.tspace).element(_dy(rng, sh, dt)), False
+    yield 'ndarray-C', np.ascontiguousarray(_dy(rng, sh, dt)), False
+    yield 'ndarray-F', np.asfortranarray(_dy(rng, sh, dt)), False
+    big = np.zeros(tuple(2 * n for n in sh), dtype=dt)
+    view = big[tuple(slice(None, None, 2) for _ in sh)]
+    view[...] = _dy(rng, sh, dt)
+    yield 'ndarray-strided', view, False
+    yield 'ndarray-other-dtype', _dy(rng, sh, other_dt), False
+    ro = np.broadcast_to(_dy(rng, sh[-1:], dt), sh)
+    yield 'ndarray-readonly', ro, False
+    yield 'nested-list', _dy(rng, sh, 'float64').tolist(), False
+    yield 'wrong-shape', _dy(rng, tuple(n + 1 for n in sh), dt), False
+    yield 'extra-axis', _dy(rng, sh + (2,), dt), False
+
+
+def run_tensor_options(ctx):
+    import odl
+    import warnings
+    rng = ctx.rng
+    spaces = [('rn((2,3))', odl.rn((2, 3))), ('rn((2,3),f32,w=2)', odl.rn((2, 3), dtype='float32',
+                                                                      weighting=2.0)),
+              ('cn(3)', odl.cn(3)), ('ts((3,2),int64)', odl.tensor_space((3, 2), dtype='int64')),
+              ('ud((0,0),(1,1),(2,3))', odl.uniform_discr([0, 0], [1, 1], (2, 3))),
+              ('ud(0,1,4,f32)', odl.uniform_discr(0, 1, 4, dtype='float32')),
+              ('ud(0,1,3,c128,e=1)', odl.uniform_discr(0, 1, 3, dtype='complex128', exponent=1.0))]
+    for sn, S in spaces:
+        is_d = isinstance(S, odl.DiscretizedSpace)
+        kind = cls(S)
+        for ik, inp, member in tensor_like_inputs(S, rng, is_d):
+            for order in (None, 'C', 'F'):
+                opt = 'order={}'.format(order)
+                rep = {'kind': 'elemopt', 'space': sn, 'input': ik, 'option': opt}
+                ctx.case(('elemopt', kind, ik, opt))
+                ctx.hit('element/{}/{}/{}'.format(kind, ik, opt))
+                src = _src_array(inp)
+                a = np.asarray(inp.asarray() if hasattr(inp, 'asarray') else inp)
+                shape_ok = (1,) * max(0, S.ndim - a.ndim) + a.shape == tuple(S.shape)
+                probs = []
+                try:
+                    if bool(inp in S) != member:
+                        probs.append('`inp in space` is {} (expected {})'.format(inp in S, member))
+                except Exception as e:  # noqa
+                    probs.append('`inp in space` raised ' + type(e).__name__)
+                with warnings.catch_warnings():
+                    warnings.simplefilter('ignore')
+                    try:
+                        res, err = S.element(inp, order=order), None
+                    except Exception as e:  # noqa
+                        res, err = None, e
+                if not shape_ok:
+                    if err is None or not isinstance(err, ValueError):
+                        probs.append('wrong shape did not raise ValueError ({})'.format(
+                            type(err).__name__ if err else 'returned'))
+                elif err is not None:
+                    probs.append('raised {}: {}'.format(type(err).__name__, str(err)[:80]))
+                else:
+                    data = res.tensor.data if is_d else res.data
+                    if res not in S:
+                        probs.append('result not in the space')
+                    if data.dtype != S.dtype or data.shape != tuple(S.shape):
+                        probs.append('data dtype/shape {} {}'.format(data.dtype, data.shape))
+                    if not np.array_equal(data, a.astype(S.dtype).reshape(S.shape)):
+                        probs.append('values differ from the converted input')
+                    if order == 'C' and not data.flags.c_contiguous or \
+                            order == 'F' and not data.flags.f_contiguous:
+                        probs.append('data not {}-contiguous'.format(order))
+                    if member and order is None and res is not inp:
+                        probs.append('member with order=None is not returned as is')
+                    if is_d and ik in ('tspace-element', 'equal-tspace-element') and \
+                            order is None and res.tensor is not inp:
+                        probs.append('tensor of the tspace is not wrapped as is')
+                    if not data.flags.writeable:
+                        probs.append('result not writeable')
+                    # documented no-copy rule: correct shape and dtype (and contiguity in
+                    # `order` if given, and writeable) <=> memory is shared
+                    if src is not None:
+                        can_share = (src.dtype == S.dtype and src.flags.writeable and
+                                     (order is None or
+                                      (order == 'C' and src.flags.c_contiguous) or
+                                      (order == 'F' and src.flags.f_contiguous)))
+                        shares = bool(np.shares_memory(data, src))
+                        if shares != can_share:
+                            probs.append('shares memory: {} (documented: {})'.format(
+                                shares, can_share))
+                if probs:
+                    viol(ctx, 'element-option {} input={} {}'.format(kind, ik, opt),
+                         '{}.element(<{}>, {}): {}'.format(sn, ik, opt, '; '.join(probs)), rep)
+        # data_ptr (tensor spaces) and callables (discretized spaces)
+        if not is_d:
+            for order in ('C', 'F', None):
+                opt = 'data_ptr,order={}'.format(order)
+                ctx.case(('elemopt', kind, 'data_ptr', opt))
+                ctx.hit('element/{}/data_ptr/{}'.format(kind, opt))
+                arr = np.array(_dy(rng, tuple(S.shape), S.dtype), order=order or 'C')
+                probs = []
+                try:
+                    res = S.element(data_ptr=arr.ctypes.data, order=order)
+                    if order is None:
+                        probs.append('order=None with data_ptr did not raise')
+                    elif not (np.shares_memory(res.data, arr) and np.array_equal(res.data, arr)
+                              and res in S):
+                        probs.append('element from pointer does not view the array')
+                except ValueError as e:
+                    if order is not None:
+                        probs.append('raised ValueError: ' + str(e)[:80])
+                except Exception as e:  # noqa
+                    probs.append('raised {}: {}'.format(type(e).__name__, str(e)[:80]))
+                try:
+                    S.element(arr, data_ptr=arr.ctypes.data, order='C')
+                    probs.append('inp together with data_ptr did not raise')
+                except TypeError:
+                    pass
+                except Exception as e:  # noqa
+                    probs.append('inp+data_ptr raised ' + type(e).__name__)
+                if probs:
+                    viol(ctx, 'element-option {} input=data_ptr {}'.format(kind, opt),
+                         '{}: {}'.format(sn, '; '.join(probs)),
+                         {'kind': 'elemopt', 'space': sn, 'input': 'data_ptr', 'option': opt})
+        elif S.dtype.kind == 'f':
+            pts = S.points().T   # (ndim, n)
+            funcs = [('callable-vectorized', (lambda x: sum((k + 1) * xi for k, xi in enumerate(x))),
+                      {}, lambda p: sum((k + 1) * p[k] for k in range(S.ndim))),
+                     ('callable-with-parameter',
+                      _param_func, {'c': 2.0}, lambda p: 2.0 * p[0])]
+            for ik, fn, kw, ref in funcs:
+                for order in (None, 'C', 'F'):
+                    opt = 'order={}'.format(order)
+                    ctx.case(('elemopt', kind, ik, opt))
+                    ctx.hit('element/{}/{}/{}'.format(kind, ik, opt))
+                    probs = []
+                    try:
+                        res = S.element(fn, order=order, **kw)
+                        want = np.asarray(ref(pts), dtype=S.dtype).reshape(S.shape)
+                        if res not in S or res.tensor.data.dtype != S.dtype:
+                            probs.append('result not in the space / wrong dtype')
+                        if not np.allclose(res.asarray(), want, rtol=1e-6, atol=0):
+                            probs.append('values are not the function at the grid points')
+                        if order == 'F' and not res.tensor.data.flags.f_contiguous or \
+                                order == 'C' and not res.tensor.data.flags.c_contiguous:
+                            probs.append('data not {}-contiguous'.format(order))
+                    except Exception as e:  # noqa
+                        probs.append('raised {}: {}'.format(type(e).__name__, str(e)[:80]))
+                    if probs:
+                        viol(ctx, 'element-option {} input={} {}'.format(kind, ik, opt),
+                             '{}.element(<{}>, {}): {}'.format(sn, ik, opt, '; '.join(probs)),
+                             {'kind': 'elemopt', 'space': sn, 'input': ik, 'option': opt})
+
+
+def _param_func(x, c=0.0):
+    return c * x[0]
+
+
+def _rebuilt_member(space, rng):
+    """an element of an EQUAL but separately built space (inner product spaces and parts
+    rebuilt too), with small dyadic values"""
+    return some_element(rebuild(space), rng)
+
+
+def pspace_inputs(P, rng):
+    """(input kind, input, expectation) with expectation in
+    'same' (element of an equal space), 'members' (all items members: wrapped as they are),
+    'convertible' (cast=True converts, cast=False raises TypeError), 'length' (ValueError)"""
+    import odl
+    comps = list(P.spaces)
+    yield 'own-element', some_element(P, rng), 'same'
+    yield 'equal-space-element', _rebuilt_member(P, rng), 'same'
+    own = [some_element(c, rng) for c in comps]
+    eq = [_rebuilt_member(c, rng) for c in comps]
+    yield 'list-of-own-members', list(own), 'members'
+    yield 'tuple-of-own-members', tuple(own), 'members'
+    yield 'list-of-equal-space-members', list(eq), 'members'
+    yield 'tuple-of-equal-space-members', tuple(eq), 'members'
+    if len(comps) > 1:
+        yield 'list-own-and-equal-mixed', [o if k % 2 else e
+                                           for k, (o, e) in enumerate(zip(own, eq))], 'members'
+    raw = [_raw_of(c, rng) for c in comps]
+    yield 'list-of-arrays', raw, 'convertible'
+    yield 'nested-lists', [_tolist(r) for r in raw], 'convertible'
+    yield 'list-member-and-array', [own[0]] + raw[1:] if len(comps) > 1 else [raw[0]], \
+        'convertible' if len(comps) > 1 else 'convertible'
+    if P.is_power_space and not isinstance(comps[0], odl.ProductSpace):
+        full = (len(P),) + tuple(comps[0].shape)
+        yield 'stacked-2d-array', _dy(rng, full, 'float64'), 'convertible'
+        yield 'stacked-2d-array-F', np.asfortranarray(_dy(rng, full, 'float64')), 'convertible'
+        yield 'stacked-2d-array-wrong-length', _dy(rng, (len(P) + 1,) + full[1:], 'float64'), \
+            'length'
+    yield 'list-too-short', list(own[:-1]), 'length'
+    yield 'list-too-long', list(own) + [own[0]], 'length'
+    wrong = odl.tensor_space(tuple(next(_leaves(comps[-1])).shape), dtype='float32')
+    if not isinstance(comps[-1], odl.ProductSpace) and comps[-1].dtype != wrong.dtype:
+        yield 'list-last-other-dtype-element', list(own[:-1]) + [some_element(wrong, rng)], \
+            'convertible'
+
+
+def _raw_of(space, rng):
+    import odl
+    if isinstance(space, odl.ProductSpace):
+        return [_raw_of(c, rng) for c in space.spaces]
+    return _dy(rng, tuple(space.shape), 'float64')
+
+
+def _tolist(r):
+    return [_tolist(x) for x in r] if isinstance(r, list) else r.tolist()
+
+
+def run_pspace_options(ctx):
+    import odl
+    import warnings
+    rng = ctx.rng
+    r2, r3 = odl.rn(2), odl.rn(3)
+    spaces = [('P(r2,r3)', odl.ProductSpace(r2, r3)),
+              ('P(r3,2)', odl.ProductSpace(r3, 2)),
+              ('P(r2,r3,w=2,e=1)', odl.ProductSpace(r2, r3, weighting=2.0, exponent=1.0)),
+              ('P(ud,r3)', odl.ProductSpace(odl.uniform_discr(0, 1, 3), r3)),
+              ('P(P(r2,2),r3)', odl.ProductSpace(odl.ProductSpace(r2, 2), r3)),
+              ('P(P(P(r2,2),ud),2)', odl.ProductSpace(odl.ProductSpace(
+                  odl.ProductSpace(r2, 2), odl.uniform_discr(0, 1, 2)), 2)),
+              ('P(c2,2)', odl.ProductSpace(odl.cn(2), 2))]
+    lines, meta = [], []
+    for sn, P in spaces:
+        for ik, inp, exp in pspace_inputs(P, rng):
+            if _has_complex(inp) != (next(_leaves(P)).dtype.kind == 'c') and exp != 'length':
+                pass
+            for cast in (True, False):
+                opt = 'cast={}'.format(cast)
+                rep = {'kind': 'elemopt', 'space': sn, 'input': ik, 'option': opt}
+                ctx.case(('elemopt', 'ProductSpace', ik, opt))
+                ctx.hit('element/ProductSpace/{}/{}'.format(ik, opt))
+                with warnings.catch_warnings():
+                    warnings.simplefilter('ignore')
+                    try:
+                        res, err = P.element(inp, cast=cast), None
+                    except Exception as e:  # noqa
+                        res, err = None, e
+                probs = []
+                items = (list(inp.parts) if hasattr(inp, 'parts') else list(inp)) \
+                    if exp != 'same' else None
+                if exp == 'same':
+                    if not (inp in P):
+                        probs.append('element of an equal space is not `in` the space')
+                    if err is not None:
+                        probs.append('raised {}: {}'.format(type(err).__name__, str(err)[:80]))
+                    elif res is not inp:
+                        probs.append('element of the (equal) space is not returned as is')
+                elif exp == 'members':
+                    if not all(v in c for v, c in zip(items, P.spaces)):
+                        probs.append('items are not `in` their components')
+                    if err is not None:
+                        probs.append('raised {} although every item is an element of the '
+                                     'respective component: {}'.format(type(err).__name__,
+                                                                       str(err)[:80]))
+                    else:
+                        if res not in P:
+                            probs.append('result not in the space')
+                        if not all(p is q for p, q in zip(res.parts, items)):
+                            probs.append('member items are not used as the parts')
+                elif exp == 'convertible':
+                    if cast:
+                        if err is not None:
+                            probs.append('raised {}: {}'.format(type(err).__name__,
+                                                                str(err)[:80]))
+                        else:
+                            if res not in P:
+                                probs.append('result not in the space')
+                            got, want = flat_values(res), flat_values(inp)
+                            if len(got) != len(want) or any(g != w for g, w in zip(got, want)):
+                                probs.append('values differ from the input')
+                    elif not isinstance(err, TypeError):
+                        probs.append('cast=False did not raise TypeError for items that are not '
+                                     'elements ({})'.format(type(err).__name__ if err
+                                                            else 'returned'))
+                elif exp == 'length':
+                    if not isinstance(err, ValueError):
+                        probs.append('wrong length did not raise ValueError ({})'.format(
+                            type(err).__name__ if err else 'returned'))
+                if probs:
+                    viol(ctx, 'element-option ProductSpace input={} {}'.format(ik, opt),
+                         '{}.element(<{}>, {}): {}'.format(sn, ik, opt, '; '.join(probs)), rep)
+                # correspondence with the model (`Space.elementC`)
+                reg = Reg()
+                try:
+                    if err is None:
+                        impl = canon_result(res, inp)
+                    else:
+                        impl = {'ValueError': 'errValue', 'TypeError': 'errType'}.get(
+                            type(err).__name__, 'err:' + type(err).__name__)
+                    lines.append('element S={} inp={} forced=0 cast={}'.format(
+                        describe_space(P, reg), describe_inp(inp, reg, P), int(cast)))
+                    meta.append((rep, impl))
+                except ValueError as e:
+                    ctx.notes.append('option case not modelled: {} <{}> ({})'.format(sn, ik, e))
+    outs = core.run_driver('C20', lines)
+    for (rep, impl), ans in zip(meta, outs):
+        if ans == 'ok outside':
+            ctx.hit('element/outside-model-range')
+        elif ans != 'ok ' + impl:
+            ctx.disagree(rep, impl[:300], ans[:300])
+
+
+def run_element_options(ctx):
+    run_tensor_options(ctx)
+    run_pspace_options(ctx)
+
+
+# ---------------------------------------------------------------------------
 # HISTORY stream: chains of conversions; equal spaces must behave equally whatever their past
 # (astype / real_space / complex_space cache their results per instance)
 
@@ -2272,6 +2626,7 @@ def run_all(ctx):
     spaces, elems = run_membership(ctx, zoo)
     run_elements(ctx, spaces, elems)
     run_derived(ctx, spaces, elems)
+    run_element_options(ctx)
     run_history(ctx)
 
 
@@ -2296,6 +2651,10 @@ def search(ctx, broken):
         except core.DriverBroken:
             pass
         check_dtype_tables(sub)
+        try:
+            run_element_options(sub)
+        except core.DriverBroken:
+            pass
         run_history(sub)
         for v in sub.violations:
             ctx.violation(v['key'], v['what'], v['replay'])
@@ -2321,11 +2680,15 @@ def replay(ctx, case):
         except core.DriverBroken:
             pass
         check_dtype_tables(sub)
+        try:
+            run_element_options(sub)
+        except core.DriverBroken:
+            pass
         run_history(sub)
         keep = [v for v in sub.violations
                 if all(v['replay'].get(k) == case.get(k) for k in ('kind', 'space', 'op', 'input',
                                                                     'index', 'x', 'dtype',
-                                                                    'path', 'table'))]
+                                                                    'path', 'table', 'option'))]
         sub.violations = keep
     known = core.load_known(ctx.pid)
     fails = [v for v in sub.violations if core.match_known(v, known) is None]
